@@ -60,7 +60,7 @@ CHECKS = {
         "technique": "Lean 4 proof by induction on the iteration cap (fuel monotonicity) + trace-replay correspondence + cap-sweep oracle on the real code",
     },
     "C01": {
-        "text": "Machine-checked proof (Lean 4, every scalar type) that the unsatisfied list of a successful result is exactly the list of caller positions of the attempted requests whose own error measure fails the EPSILON threshold at the returned coordinates; what each error measure means geometrically is proved over the reals (Ezpz/Real) and, for the f64 code, checked against an independent geometric specification of all 23 kinds on the real solver.",
+        "text": "Machine-checked proof (Lean 4, every scalar type) that the unsatisfied list of a successful result is exactly the list of caller positions of the attempted requests whose own error measure fails the EPSILON threshold at the returned coordinates; what each error measure means geometrically is NOT proved: it is checked against an independent geometric specification of all 23 kinds (written from the documented meaning, not from the kernels) on the real solver.",
         "design_ref": "DESIGN.md §6 C01",
         "note": "The f64 residual code is tied to the model by corr-kernels (all kinds, all aliasing patterns); the geometric oracle (harness/src/geom.rs) is written from the documented meaning, not from the kernels. PointArcCoincident's sweep is a known finding (F14).",
         "technique": "Lean 4 proof (sweep = filter) + kernel/trace correspondence + independent geometric oracle on the real code",
